@@ -5,6 +5,7 @@ CONSTANTS
   TolAboveNewton = FALSE
 INVARIANTS
   TypeOK
+  IndInv
   OkMeansConverged
   NotConvergedIsHonest
   GivenIsFinal
